@@ -10,7 +10,11 @@ scripts, core.yl's methods, generated programs and a limit family sitting exactl
 what it returns is re-encoded as a Gallina wire term and judged by the PROVED verifier under vm_compute
 (`YV.VerifierWire.run_report_w` = `YV.VerifierRun.run_report_program` on the decoded program).
 Oracle: compiler Ok => verifier OK with unique heights; one past a limit => compiler Err.  A flagged function is classified by (reason, instruction shape) into the known defect
-classes of notes/C04-findings.json; anything else is a VIOLATION with the (shrunk) source as replay."""
+classes of notes/C04-findings.json; anything else is a VIOLATION with the (shrunk) source as replay.
+Round 7: family `operand_alias` (every operand form x every opcode number x every kind of function: an operand byte that
+looks like an opcode in front of the epilogue and of every one-byte follower; verified AND run), regenerated table
+gen/CodeReads.v (the compiler never reads the bytes it has emitted; the users of JUMP_SIZE_MAX agree), and the tie to the
+Gallina model of the whole compiler (FullCompile.v: byte-identical dumps, `fullcompile_tie`)."""
 import json
 import os
 import re
@@ -26,6 +30,10 @@ TRUSTED = [
     "its opcode numbering/names are re-tied to the regenerated enum on every run",
     "harness `yv` commands compile/corefns (dump of ObjFunction public fields), tools/props/C04.py "
     "(BFS renumbering, wire encoding, classification of flagged functions by a Python disassembler)",
+    "translator/translate_c04.py (token-level tables of compiler.rs / vm.rs: add_local sites, operand arithmetic, add_constant sites, "
+    "uses of chunk.code, comparisons with JUMP_SIZE_MAX)",
+    "FullCompile.v is a hand transcription of compiler.rs; it is re-tied to the real compiler by byte-identical dumps on every run "
+    "(tools/fullcompile_corr.py); its theorems restated in props/C04.v are about the MODEL",
 ]
 ASSUMPTIONS = [
     "values are abstracted to shapes: kind-dependent panics (BuildString on non-strings, GetSuper on a non-class) are out of scope",
@@ -1308,6 +1316,462 @@ def constants_by_kind(binary):
 
 
 # ------------------------------------------------------------------------------------------------
+# operand bytes that look like opcodes (round 7).  The compiler must never take a decision by looking at the RAW bytes
+# it has emitted: the last byte of a chunk may be an OPERAND (seeded change: the implicit `nil; return` epilogue was
+# skipped when the last byte equalled OpCode::Return = 57, e.g. after a 57-element vec literal, so the function ran
+# off the end of its code).  For every operand-carrying instruction form F, every value v that is (or may become) an
+# opcode number and every kind of function (fn, block lambda, method, static method, constructor), a function is built
+# in which F with operand byte v is followed by Pop, a unary operator, a conditional jump, a patched jump target, an
+# explicit Return, and - as the initialiser of the LAST local declaration, which emits nothing
+# after it - directly by the implicit epilogue.  16-bit operands are aimed at with their low byte (index v) and with
+# both bytes (index 257 v: jump distances, handler sizes, constant / name indices).  Every function is judged by the
+# proved verifier (a function without its epilogue is rejected: fetch outside the code) and RUN in the release and the
+# debug build (output known by construction).  Static side of the same fact: gen/CodeReads.v.
+
+ALIAS_KINDS = ("fn", "lambda", "method", "static", "ctor")
+
+
+def _stmts_run(na, nb):
+    return "nil;" * na + "!nil;" * nb          # 2 bytes / 3 bytes each, and they may be executed
+
+
+ALIAS_FORMS = [
+    # name, opcode whose operand is aimed at, field (a / b / last capture descriptor of a Closure), kinds, 16-bit operand?
+    ("get_local", "GetLocal", "a", ALIAS_KINDS, False), ("set_local", "SetLocal", "a", ALIAS_KINDS, False),
+    ("get_upvalue", "GetUpvalue", "a", ALIAS_KINDS, False), ("set_upvalue", "SetUpvalue", "a", ALIAS_KINDS, False),
+    ("build_vec", "BuildVec", "a", ALIAS_KINDS, False), ("build_tuple", "BuildTuple", "a", ALIAS_KINDS, False),
+    ("build_map", "BuildHashMap", "a", ALIAS_KINDS, False), ("build_string", "BuildString", "a", ALIAS_KINDS, False),
+    ("call", "Call", "a", ALIAS_KINDS, False), ("invoke_argc", "Invoke", "b", ALIAS_KINDS, False),
+    ("super_invoke_argc", "SuperInvoke", "b", ("method", "ctor"), False), ("construct", "Construct", "a", ("ctor",), False),
+    ("closure_local", "Closure", "uv1", ALIAS_KINDS, False), ("closure_upvalue", "Closure", "uv0", ALIAS_KINDS, False),
+    ("constant_index", "Constant", "a", ("fn", "method"), True), ("global_name", "GetGlobal", "a", ("fn", "method"), True),
+    ("property_name", "GetProperty", "a", ("fn", "method"), True), ("invoke_name", "Invoke", "a", ("fn", "method"), False),
+    ("super_name", "GetSuper", "a", ("method",), False), ("closure_index", "Closure", "a", ("fn", "method"), False),
+]
+ALIAS_JUMPS = [
+    # name, opcode, field, builder(na, nb) of the function body
+    ("jump_distance", "Jump", "a", lambda a, b: "if p1 == -1 { } else {" + _stmts_run(a, b) + "}"),
+    ("jump_if_false_distance", "JumpIfFalse", "a", lambda a, b: "if p1 == -1 {" + _stmts_run(a, b) + "}"),
+    ("loop_distance", "Loop", "a", lambda a, b: "while p1 == -1 {" + _stmts_run(a, b) + "}"),
+    ("handler_try_size", "PushExcHandler", "a", lambda a, b: "try {" + _stmts_run(a, b) + "} catch e { }"),
+    ("handler_catch_size", "PushExcHandler", "b", lambda a, b: "try { } catch e {" + _stmts_run(a, b) + "}"),
+]
+# one-byte instructions that can directly follow an expression E besides Pop / LogicalNot / JumpIfFalse / Return / the
+# epilogue: every cell gets two of them (rotating, so that every (operand value, follower) pair occurs), in a branch
+# that is compiled and verified but not executed (`~nil` is a run-time error)
+ALIAS_FOLLOWERS = ["~(%s)", "-(%s)", "1 + (%s)", "1 - (%s)", "1 * (%s)", "1 / (%s)", "1 % (%s)", "1 == (%s)", "1 < (%s)", "1 > (%s)",
+                   "1 & (%s)", "1 | (%s)", "1 ^ (%s)", "1 << (%s)", "1 >> (%s)", "p1[(%s)]", "1..(%s)", "[(%s)]", "print((%s))", "1 <= (%s)", "1 >= (%s)"]
+ALIAS_CONTEXTS = 8          # occurrences of E in the generic body (constructors: one fewer, `return;` carries no value)
+
+
+def alias_values():
+    """every opcode number of the CURRENT chunk.rs (regenerated manifest), and three values past the end"""
+    n = len(OPS)
+    try:
+        with open(os.path.join(yvlib.VERIF, "coq", "gen", "manifest.json")) as fh:
+            n = max(n, int(json.load(fh)["opcodes"]["count"]))
+    except Exception:
+        pass
+    return list(range(0, n + 3))
+
+
+def _alias_spec(form, v, kind, wide):
+    """-> None (not constructible) | dict: E expression, nparams, ncapt captured variables, prefix statements,
+    top-level set-up, first argument, arity of R.m, derived class?, special body"""
+    nils = ", ".join(["nil"] * v)
+    bound = kind in ("method", "ctor")
+    d = {"nparams": 1, "ncapt": 0, "prefix": "", "top": "", "rarity": 0, "derived": False, "body": None, "arg1": "1001", "R": False}
+    idx = 257 * v if wide else v          # 16-bit operands: low byte v; with `wide` the high byte is v as well
+    dummies = "".join("%d;" % (100000 + i) for i in range(idx))
+    if form == "get_local":
+        d.update(E="self" if v == 0 else "p%d" % v, nparams=max(v, 1))
+        return d if (v > 0 or bound) else None
+    if form == "set_local":
+        d.update(E="p%d = 7" % v, nparams=max(v, 1))
+        return d if v > 0 else None
+    if form in ("get_upvalue", "set_upvalue", "closure_upvalue"):
+        d.update(ncapt=v + 1, prefix="".join("c%d;" % i for i in range(v)))
+        d["E"] = {"get_upvalue": "c%d", "set_upvalue": "c%d = 7", "closure_upvalue": "|| c%d"}[form] % v
+        return d
+    if form == "closure_local":
+        d.update(E="|| self" if v == 0 else "|| p%d" % v, nparams=max(v, 1))
+        return d if (v > 0 or bound) else None
+    if form == "build_vec":
+        d.update(E="[%s]" % nils)
+    elif form == "build_tuple":
+        d.update(E="(nil,)" if v == 1 else "(%s)" % nils)
+    elif form == "build_map":
+        d.update(E="{%s}" % ", ".join("%d: nil" % i for i in range(v)))
+    elif form == "build_string":
+        if v == 0:
+            return None
+        d.update(E='"%s"' % ("${nil}" * v))
+    elif form == "call":
+        d.update(E="callee(%s)" % nils, top="fn callee(%s) { return 5; }\n" % ", ".join(_names("q", v)))
+    elif form == "invoke_argc":
+        d.update(E="p1.m(%s)" % nils, rarity=v, arg1="R.new()", R=True)
+    elif form == "super_invoke_argc":
+        d.update(E="super.m(%s)" % nils, rarity=v, derived=True, R=True)
+    elif form == "construct":
+        d.update(nparams=v, body="")
+    elif form == "constant_index":
+        d.update(E="424242", prefix=dummies)
+    elif form == "global_name":
+        d.update(E="gq", prefix=dummies, top="var gq = 5;\n")
+    elif form == "property_name":
+        d.update(E="p1.m", prefix=dummies, arg1="R.new()", R=True)
+    elif form == "invoke_name":
+        d.update(E="p1.m()", prefix=dummies, arg1="R.new()", R=True)
+    elif form == "super_name":
+        d.update(E="super.m", prefix=dummies, derived=True, R=True)
+    elif form == "closure_index":
+        d.update(prefix=dummies, body="var t = || nil;")
+    else:
+        return None
+    return d
+
+
+def _alias_function(kind, d):
+    """-> (definition, invocation printing one line, expected lines)"""
+    np_ = d["nparams"]
+    ps = _names("p", np_ + 1)[1:]
+    args = ([d["arg1"]] + [str(1000 + i) for i in range(2, np_ + 1)]) if np_ else []
+    if d["body"] is not None:
+        body, exp = d["prefix"] + d["body"], []
+    else:
+        E = d["E"]
+        ret = "return;" if kind == "ctor" else "return %s;" % E
+        k = d.get("follow", 0)
+        extra = "".join("var x%d = %s; " % (j, ALIAS_FOLLOWERS[(k + j) % len(ALIAS_FOLLOWERS)].replace("%s", E)) for j in range(2))
+        body = ("%s(%s); var n = !(%s); var a = true && (%s); if (%s) { } print(n); print(a == nil); "
+                "if p1 == -1 { %s%s } var t = %s;" % (d["prefix"], E, E, E, E, extra, ret, E))
+        exp = ["false", "false"]
+    P, A = ", ".join(ps), ", ".join(args)
+    if kind == "fn":
+        return "fn f(%s) { %s }" % (P, body), "print(f(%s));" % A, exp + ["nil"]
+    if kind == "lambda":
+        return "var f = |%s| { %s };" % (P, body), "print(f(%s));" % A, exp + ["nil"]
+    if kind == "method":
+        return ("#[constructor(new)%s] class K { fn mm(self%s) { %s } }" % (", derive(R)" if d["derived"] else "", ", " + P if P else "", body),
+                "print(K.new().mm(%s));" % A, exp + ["nil"])
+    if kind == "static":
+        return "class K { #[static] fn ss(%s) { %s } }" % (P, body), "print(K.ss(%s));" % A, exp + ["nil"]
+    return ("%sclass K { #[constructor] fn new(self%s) { %s } }" % ("#[derive(R)] " if d["derived"] else "", ", " + P if P else "", body),
+            "print(K.new(%s) == nil);" % A, exp + ["false"])
+
+
+def alias_program(cell, jump_bodies=None, follow_rot=0):
+    """cell = (form, v, kind, wide) -> None | (source, expected output, instructions aimed at, must one be last?)"""
+    form, v, kind, wide = cell
+    if jump_bodies is not None and form in jump_bodies:
+        body = jump_bodies[form].get((v, wide))
+        if body is None:
+            return None
+        return "fn f(p1) { %s }\nprint(f(1001));" % body, ["nil"], 1, False
+    d = _alias_spec(form, v, kind, wide)
+    if d is None:
+        return None
+    d["follow"] = 2 * [f[0] for f in ALIAS_FORMS].index(form) + v + follow_rot
+    definition, call, exp = _alias_function(kind, d)
+    top = d["top"]
+    if d["R"]:
+        top += "#[constructor(new)] class R { fn m(self%s) { return 5; } }\n" % "".join(", " + q for q in _names("q", d["rarity"]))
+    if d["ncapt"]:
+        cs = _names("c", d["ncapt"])
+        src = "%sfn outer(%s) {\n%s\n%s\n}\nouter(%s);" % (top, ", ".join(cs), definition, call, ", ".join(str(2000 + i) for i in range(len(cs))))
+    else:
+        src = "%s%s\n%s" % (top, definition, call)
+    need = 1 if d["body"] is not None else ALIAS_CONTEXTS - (1 if kind == "ctor" else 0)
+    return src, exp, need, True
+
+
+def _alias_rename(src, i):
+    return re.sub(r"\b(K|f|R|callee|outer|gq|mm|ss)\b", lambda m: "%s_%d" % (m.group(1), i), src)
+
+
+def alias_hits(tree, op, field, v, wide, need, at_end):
+    """number of functions of the tree that hold >= need instructions `op` whose aimed-at operand equals v
+    (and, with at_end, one of them directly in front of the epilogue / at the very end of the code)"""
+    want = 257 * v if wide else v
+    n = 0
+    for fn in tree:
+        if fn is None:
+            continue
+        ins = listing(fn, tree)
+        hits = []
+        for k, (pc, nm, a, b, nx) in enumerate(ins):
+            if nm != op:
+                continue
+            if field == "a":
+                ok = a == want
+            elif field == "b":
+                ok = b == want
+            else:       # last capture descriptor of a Closure: (is_local, index)
+                ok = nx - pc >= 5 and fn.code[nx - 2] == (1 if field == "uv1" else 0) and fn.code[nx - 1] == v
+            if ok:
+                hits.append(k)
+        body = ins[:-2] if [i[1] for i in ins[-2:]] in (["Nil", "Return"], ["GetLocal", "Return"]) else ins
+        hits = [k for k in hits if k < len(body)]
+        if len(hits) >= need and (not at_end or hits[-1] == len(body) - 1):
+            n += 1
+    return n
+
+
+def alias_jump_bodies(binary, values, wide_values):
+    """function bodies whose jump / loop / handler operand is exactly v (and 257 v), sized from three small compiles
+    per form -> ({form: {(v, wide): body}}, errors)"""
+    cal_src = []
+    for name, op, field, build in ALIAS_JUMPS:
+        cal_src += ["fn f(p1) { %s }" % build(10, 0), "fn f(p1) { %s }" % build(11, 0), "fn f(p1) { %s }" % build(10, 1)]
+    cal = compile_sources(binary, cal_src)
+    bodies, errors = {}, []
+    for k, (name, op, field, build) in enumerate(ALIAS_JUMPS):
+        bodies[name] = {}
+        c = cal[3 * k:3 * k + 3]
+        if any(x[0] != "ok" for x in c):
+            errors.append("operand_alias:%s: calibration program did not compile" % name)
+            continue
+        ds = [_first(x[1], op, field, fn_idx=1) for x in c]
+        if None in ds or ds[1] <= ds[0] or ds[2] <= ds[0]:
+            errors.append("operand_alias:%s: calibration: instruction not found" % name)
+            continue
+        ua, ub = ds[1] - ds[0], ds[2] - ds[0]
+        base = ds[0] - 10 * ua
+        for (v, wide) in [(v, False) for v in values] + [(v, True) for v in wide_values]:
+            rest = (257 * v if wide else v) - base
+            nb = 0
+            while nb < 4 and (rest - ub * nb) % ua != 0:
+                nb += 1
+            if rest - ub * nb < 0 or (rest - ub * nb) % ua != 0:
+                continue            # distance too small for this statement form
+            bodies[name][(v, wide)] = build((rest - ub * nb) // ua, nb)
+    return bodies, errors
+
+
+def alias_cells(rng, quick, values):
+    """-> (cells packed per value, wide cells): every (form, value) with ONE kind (thorough: TWO), rotating so that
+    every (value, kind) and every (form, kind) pair occurs (the full product - 4794 functions - costs 8 CPU-minutes)"""
+    rot = rng.randrange(len(ALIAS_KINDS))
+    packed = {}
+    for fi, (form, op, field, kinds, wideable) in enumerate(ALIAS_FORMS):
+        for v in values:
+            ks = tuple(dict.fromkeys(kinds[(fi + v + rot + j) % len(kinds)] for j in range(1 if quick else 2)))
+            for kind in ks:
+                packed.setdefault(v, []).append((form, v, kind, False))
+    for name, op, field, build in ALIAS_JUMPS:
+        for v in values:
+            packed.setdefault(v, []).append((name, v, "fn", False))
+    nops = len(values) - 3
+    wide_vals = list(range(1, nops))
+    wide = []
+    for name, op, field, build in ALIAS_JUMPS:      # linear cost (257 v bytes of straight code)
+        vs = sorted(rng.sample(wide_vals, 3 if quick else 16))
+        wide += [(name, v, "fn", True) for v in vs]
+    wide_const = []
+    for form, op, field, kinds, wideable in ALIAS_FORMS:   # 257 v constants: the proved verifier's constant lookup is a list walk
+        if wideable:
+            wide_const += [(form, v, "fn", True) for v in wide_vals]
+    return packed, wide, wide_const
+
+
+def alias_family(binaries, rng, quick):
+    """-> (rows, items to verify, broken correspondences, refine); refine(labels of flagged programs) takes the suspect
+    programs apart and returns (items to verify, failures [(what, source, expected, actual, build)], broken correspondences)"""
+    rel = binaries["release"]
+    values = alias_values()
+    packed, wide, wide_const = alias_cells(rng, quick, values)
+    jump_bodies, errors = alias_jump_bodies(rel, values, sorted({c[1] for c in wide}))
+    meta = {f[0]: f for f in ALIAS_FORMS}
+    meta.update({j[0]: (j[0], j[1], j[2], ("fn",), True) for j in ALIAS_JUMPS})
+    progs = []          # (label, cells with their single programs, source, expected, to_coq)
+    for v in sorted(packed):
+        cells = [(c, alias_program(c, jump_bodies)) for c in packed[v]]
+        cells = [(c, r) for c, r in cells if r is not None]
+        src = "\n".join(_alias_rename(r[0], i) for i, (c, r) in enumerate(cells))
+        progs.append(("alias:value:%d" % v, cells, src, sum((r[1] for c, r in cells), []), True))
+    for c in wide:
+        r = alias_program(c, jump_bodies)
+        if r is not None:
+            progs.append(("alias:%s:257x%d" % (c[0], c[1]), [(c, r)], r[0], r[1], True))
+    # 257 v constants in one function: all are compiled, looked at and RUN; the proved verifier judges a sample
+    # (its constant lookup walks a list: ~n^2/2 steps)
+    if quick:       # one of the cheaper ones (at most 24 x 257 constants)
+        coq_const = set(rng.sample([i for i, c in enumerate(wide_const) if c[1] <= 24], 1))
+    else:
+        coq_const = set(rng.sample(range(len(wide_const)), min(len(wide_const), 6)))
+    for i, c in enumerate(wide_const):
+        r = alias_program(c, jump_bodies)
+        if r is not None:
+            progs.append(("alias:%s:257x%d" % (c[0], c[1]), [(c, r)], r[0], r[1], i in coq_const))
+    comp = compile_sources(rel, [p[2] for p in progs], timeout_ms=120000)
+    # (a debug-build VM collects at every allocation: 20 s for this family - thorough tier, and whenever a suspect
+    # program is taken apart)
+    runs = {"release": run_sources(rel, [p[2] for p in progs])}
+    if not quick:       # debug build: the packed programs and the jump programs (not the 192 programs with 257 v constants)
+        small = [i for i, p in enumerate(progs) if len(p[2]) < 100000]
+        dr = dict(zip(small, run_sources(binaries["debug"], [progs[i][2] for i in small])))
+        runs["debug"] = [dr.get(i, runs["release"][i]) for i in range(len(progs))]
+    items, suspects = [], []
+    stats = {}
+    for i, ((label, cells, src, exp, to_coq), c) in enumerate(zip(progs, comp)):
+        bad = None
+        if c[0] != "ok":
+            bad = "compile: %s" % str(c[1])[:160]
+        else:
+            for (cell, r) in cells:
+                form, v, kind, wide_ = cell
+                _, op, field, _, _ = meta[form]
+                st = stats.setdefault(form, {"cells": 0, "aimed_ok": 0, "kinds": {}, "values": set(), "wide_values": set()})
+                st["cells"] += 1
+                st["kinds"][kind] = st["kinds"].get(kind, 0) + 1
+                (st["wide_values"] if wide_ else st["values"]).add(v)
+                want = sum(1 for (c2, r2) in cells if c2[0] == form and c2[3] == wide_ and r2[2] >= r[2])
+                if alias_hits(c[1], op, field, v, wide_, r[2], r[3]) >= want:
+                    st["aimed_ok"] += 1
+                else:
+                    bad = bad or "operand not hit: %s" % (cell,)
+            for bname, rr in runs.items():
+                if rr[i][0] != "ok" or rr[i][1] != exp:
+                    bad = bad or "run(%s): %s %s" % (bname, rr[i][0], rr[i][2].strip()[:120])
+            if to_coq:
+                items.append(Item(label, src if len(src) < 60000 else None, c[1], "limit", {"cells": cells}))
+        if bad:
+            suspects.append((label, cells, bad))
+    rows = []
+    for form, st in stats.items():
+        rows.append({"family": "operand_alias:" + form, "opcode": meta[form][1], "cells": st["cells"], "operand_hit_exactly": st["aimed_ok"],
+                     "kinds": st["kinds"], "values": "%d..%d" % (min(st["values"]), max(st["values"])) if st["values"] else "-",
+                     "both_bytes_values(257v)": sorted(st["wide_values"]), "status": "ok" if st["cells"] == st["aimed_ok"] else "OPERAND-NOT-HIT"})
+    rows.append({"family": "operand_alias", "programs": len(progs), "programs_to_coq": len(items), "values": len(values),
+                 "runs": {"release": len(progs), "debug": 0 if quick else len([p for p in progs if len(p[2]) < 100000])}, "suspect_programs": [s[0] + ": " + s[2] for s in suspects][:8], "status": "ok" if not suspects else "SUSPECT"})
+
+    def refine(flagged_labels):
+        """the packed programs that were flagged, compiled wrongly or misbehaved, taken apart: every cell alone
+        -> (items to verify, failures, broken correspondences)"""
+        todo = [(label, cells) for (label, cells, bad) in suspects] + \
+               [(p[0], p[1]) for p in progs if p[0] in flagged_labels and p[0] not in {s[0] for s in suspects}]
+        singles = [(cell, r) for (label, cells) in todo for (cell, r) in cells][:400]
+        comp1 = compile_sources(rel, [r[0] for (cell, r) in singles], timeout_ms=120000)
+        runs1 = {b: run_sources(path, [r[0] for (cell, r) in singles]) for b, path in binaries.items()}
+        its, fails, corr = [], [], []
+        for i, ((cell, r), c) in enumerate(zip(singles, comp1)):
+            form, v, kind, wide_ = cell
+            _, op, field, _, _ = meta[form]
+            name = "%s, operand %s%d, %s" % (form, "257 x " if wide_ else "", v, kind)
+            if c[0] == "err":
+                corr.append("operand_alias: family program does not compile (%s): %s" % (name, str(c[1])[:120]))
+                continue
+            if c[0] != "ok":
+                fails.append(("compiler crashed on an operand-alias program (%s)" % name, r[0], r[1], [str(c[1])[:200]], None))
+                continue
+            size = sum(len(f.code) for f in c[1] if f)
+            if len(c[1][0].consts) < 3000 and size < 150000:
+                its.append(Item("alias:%s:%s%d:%s" % (form, "257x" if wide_ else "", v, kind), r[0] if len(r[0]) < 60000 else None, c[1], "limit"))
+            if alias_hits(c[1], op, field, v, wide_, r[2], r[3]) < 1:
+                corr.append("operand_alias: the aimed-at operand is not where the family puts it (%s)" % name)
+            for bname, rr in runs1.items():
+                if rr[i][0] != "ok" or rr[i][1] != r[1]:
+                    fails.append(("accepted function in which an operand byte equals an opcode number misbehaves (%s; %s build)" % (name, bname),
+                                  r[0], r[1], rr[i][1] + ([rr[i][0] + ": " + rr[i][2].strip()[:200]] if rr[i][0] != "ok" else []), bname))
+                    break
+        return its, fails, corr
+    return rows, items, errors, refine
+
+
+# ------------------------------------------------------------------------------------------------
+# tie to the Gallina model of the WHOLE compiler (coq/theories/FullCompile*.v, driver tools/fullcompile_corr.py): the dump
+# of the real compiler and of the model must be BYTE-IDENTICAL (function tree, arity, capture counts, names, code,
+# constants, line tables; rejected programs: same first error and line).  A difference = the model no longer
+# describes compiler.rs (broken correspondence); the differing programs are handed to the verifier and the VM.
+# The model needs ~0.05 s of CPU per test script and ~0.2 s per operand-alias program, so the quick tier compares the
+# core.yl, 180 of the test scripts (rotating with the seed), 30 generated programs (+ the 26 probes of the driver) and
+# ONE alias program per opcode value (form and kind of function rotating); the thorough tier calls fullcompile_check
+# (all scripts, 600 generated programs, the bridge to CompileExpr.v) and two alias programs per value.
+
+def fullcompile_tie(ctx, binary, rng, quick):
+    """-> a function `join()` -> (programs on which model and compiler differ [(name, source, why)], evidence dict).
+    Every random choice is drawn here, in the caller's thread; the model is evaluated in a worker thread while the
+    caller runs the verifier."""
+    try:
+        import fullcompile_corr as fc
+    except Exception as e:
+        ctx.notes.append("tools/fullcompile_corr.py unavailable (%r): tie to FullCompile.v skipped" % (e,))
+        return lambda: ([], {})
+    import time as _t
+    from concurrent.futures import ThreadPoolExecutor
+    t0 = _t.time()
+    values = alias_values()
+    jump_bodies, _ = alias_jump_bodies(binary, values, [])
+    forms = [(f[0], f[3]) for f in ALIAS_FORMS] + [(j[0], ("fn",)) for j in ALIAS_JUMPS]
+    rot = rng.randrange(len(forms))
+    directed = []
+    for v in values:
+        got, k = 0, 0
+        while got < (1 if quick else 2) and k < len(forms):
+            form, kinds = forms[(v + rot + 7 * k) % len(forms)]
+            k += 1
+            r = alias_program((form, v, kinds[(v + rot + k) % len(kinds)], False), jump_bodies)
+            if r is not None and len(r[0]) < 3000:
+                directed.append(("alias:%s:%d" % (form, v), r[0].encode()))
+                got += 1
+    small = quick or _SEARCH["directed_pass"]
+    if small:
+        corp = fc.corpus()
+        if len(corp) > 200:         # quick: core.yl + 180 of the test scripts (rotating with the seed); thorough: all
+            corp = [corp[i] for i in sorted(rng.sample(range(len(corp) - 1), 180))] + corp[-1:]
+        srcs = corp + fc.generated(rng, 30) + directed
+    else:
+        srcs = directed
+
+    def evaluate():
+        cov = {}
+        try:
+            if not small:
+                fc.fullcompile_check(ctx, 120)      # all scripts + 600 generated + the bridge; fills ctx.cov / ctx.corr_broken itself
+            st, bad = fc.run_all(binary, srcs, tag="C04fullcompile")
+            # a case whose model evaluation failed (time-out / memory under machine load) is re-run alone before it is believed
+            failed = {b["name"] for b in bad if b.get("why") == "the model did not evaluate"}
+            if failed:
+                again = [x for x in srcs if x[0] in failed]
+                st2, bad2 = fc.run_all(binary, again, tag="C04fullcompile_retry")
+                bad = [b for b in bad if b["name"] not in failed] + bad2
+                st["model_failed_first_time"] = len(failed)
+                st["model_failed"] = st2.get("model_failed", 0)
+                for k in ("ok_identical", "err_agree", "mismatch", "functions", "code_bytes"):
+                    st[k] = st.get(k, 0) + st2.get(k, 0)
+        except Exception as e:
+            ctx.corr_broken.append("FullCompile: the model could not be evaluated: %r" % (e,))
+            return [], {"fullcompile_error": repr(e)}
+        by_name = dict(srcs)
+        hard = [b for b in bad if not b.get("soft")]
+        for b in hard[:10]:
+            ctx.corr_broken.append("FullCompile: model and compiler.rs disagree on %s: %s" % (b["name"], b["why"]))
+        cov.update({"fullcompile_tie_" + k: v for k, v in st.items()})
+        cov["fullcompile_tie_directed_alias_programs"] = len(directed)
+        cov["fullcompile_tie_soft"] = [b for b in bad if b.get("soft")][:10]
+        cov["fullcompile_tie_seconds"] = round(_t.time() - t0, 1)
+        diff = []
+        for b in hard[:40]:
+            src = by_name.get(b["name"])
+            if src is not None:
+                try:
+                    diff.append((b["name"], src.decode("utf-8"), b["why"]))
+                except UnicodeDecodeError:
+                    pass
+        return diff, cov
+
+    ex = ThreadPoolExecutor(max_workers=1)
+    fut = ex.submit(evaluate)
+
+    def join():
+        try:
+            return fut.result()
+        finally:
+            ex.shutdown(wait=False)
+    return join
+
+
+# ------------------------------------------------------------------------------------------------
 # the check
 
 CORE_YL = os.path.join(yvlib.REPO, "yarel", "src", "core.yl")
@@ -1382,7 +1846,18 @@ def describe(it, k, fn, vd):
             "near_pc": ["%d %s %d %d" % (i[0], i[1], i[2], i[3]) for i in near]}
 
 
+_SEARCH = {"running": False, "done": False, "directed_pass": False}
+
+
 def run(ctx):
+    run_once(ctx)
+    # tools/check.py starts `search` only when NO violation at all was reported - the open known classes of this
+    # property are reported as (known) violations on every run, so the plug-in starts it itself
+    if (ctx.broken or ctx.corr_broken) and not new_violations(ctx) and not _SEARCH["running"] and not ctx.replay_only:
+        search(ctx)
+
+
+def run_once(ctx):
     quick = ctx.quick()
     rng = ctx.rng
     # the release build: compiling is deterministic, and a debug-build VM (collection at every allocation) needs
@@ -1452,7 +1927,8 @@ def run(ctx):
     citems, ncore = core_items(binary, ctx)
     items += citems
     # ---- 3. generated programs
-    n_clean, n_full = (1200, 800) if quick else (12000, 8000)
+    # (round 7: quick 1200 + 800 -> 600 + 400, thorough 12000 + 8000 -> 8000 + 6000; the CPU went to the operand-alias family and to the FullCompile tie)
+    n_clean, n_full = (600, 400) if (quick or _SEARCH["directed_pass"]) else (8000, 6000)
     scale = float(os.environ.get("C04_GEN_SCALE", "1"))      # developer knob (mutation experiments); default 1
     n_clean, n_full = max(1, int(n_clean * scale)), max(1, int(n_full * scale))
     gen = [("clean",) + gen_program(rng, "clean") for _ in range(n_clean)] + \
@@ -1477,6 +1953,11 @@ def run(ctx):
     srows, sitems, sfail = operand_sum_family({"release": binary, "debug": ctx.harness("debug")})
     items += sitems
     crows, cfail = constants_by_kind(binary)
+    arows, aitems, aerrs, arefine = alias_family({"release": binary, "debug": ctx.harness("debug")}, rng, quick)
+    items += aitems
+    # ---- 5. the Gallina model of the whole compiler: byte-identical output; programs on which it differs are judged too
+    #         (evaluated in a worker thread while the verifier runs; joined below)
+    tie_join = fullcompile_tie(ctx, binary, rng, quick)
     log("[C04] compiled everything in %.1fs" % (_t.time() - t_start))
     # ---- wire self-test: the model must see exactly the bytes the compiler produced
     probe = [it for it in items if sum(len(f.code) for f in it.tree if f) < 3000][:6] + litems[:1]
@@ -1489,6 +1970,30 @@ def run(ctx):
     t0 = _t.time()
     judge(items, "C04")
     log("[C04] verified %d programs in %.1fs" % (len(items), _t.time() - t0))
+    fdiff, fcov = tie_join()
+    log("[C04] FullCompile tie joined after %.1fs: %s differing programs" % (_t.time() - t0, len(fdiff)))
+    fitems = []
+    if fdiff:
+        fres = compile_sources(binary, [d[1] for d in fdiff])
+        fruns = run_sources(binary, [d[1] for d in fdiff])
+        for (name, src, why), r, rr in zip(fdiff, fres, fruns):
+            if r[0] == "ok":
+                fitems.append(Item("fullcompile_diff:" + name, src, r[1], "fullcompile_diff", {"why": why, "run": rr}))
+        judge(fitems, "C04fcdiff")
+        items += fitems
+    # operand-alias family: a packed program that was flagged, did not compile or misbehaved is taken apart, every
+    # cell alone, so that the failing input is one small function
+    a_flagged = {it.label for it in aitems if it.head.get("ALL") != "T"}
+    rits, afail, acorr = arefine(a_flagged)
+    if rits:
+        judge(rits, "C04alias")
+        if any(unknown_flags(it) or it.head.get("ALL") == "?" for it in rits):
+            for it in aitems:
+                if it.label in a_flagged:
+                    it.flags = []          # reported through the single-cell programs
+        items += rits
+    for e in aerrs + acorr:
+        ctx.corr_broken.append(e)
     nfn = 0
     hist, lenient_hist, class_hist, group_hist = {}, {}, {}, {}
     witnesses = {}
@@ -1590,6 +2095,11 @@ def run(ctx):
         if must:
             meta["must_not_compile"] = True
         viol.append((what, Item("constants_by_kind", src, None, "limit", meta), "boundary"))
+    for (what, src, exp, act, bname) in afail:
+        meta = {"expected_output": exp, "actual_output": act}
+        if bname:
+            meta["build"] = bname
+        viol.append((what, Item("operand_alias", src, None, "limit", meta), "boundary"))
     for (what, src, exp, act) in bfail:
         viol.append((what, Item("boundary", src, None, "limit", {"expected_output": exp, "actual_output": act}), "boundary"))
     # ---- report violations (first one shrunk)
@@ -1658,7 +2168,10 @@ def run(ctx):
         "known_class_histogram": class_hist, "known_class_witnesses": {c: w["source"][:600] for c, w in witnesses.items()},
         "groups": group_hist, "scripts": counts, "core_classes": ncore,
         "generated": {"clean": n_clean, "full": n_full, "compile_errors": gen_err, "feature_histogram": feature_hist},
-        "limit_family": [{k_: v_ for k_, v_ in r.items() if k_ not in ("line_table_ok",)} for r in rows] + brows + srows + crows,
+        "limit_family": [{k_: v_ for k_, v_ in r.items() if k_ not in ("line_table_ok",)} for r in rows] + brows + srows + crows + arows,
+        "fullcompile": fcov, "fullcompile_differing_programs_judged": [
+            {"name": it.label, "why": it.meta["why"], "verifier": it.head.get("ALL"), "run": "%s %s" % (it.meta["run"][0], it.meta["run"][2].strip()[:100])} for it in fitems][:10],
+        "functions_not_ending_in_return": sum(1 for it in items for fn in (it.fns or []) if not fn.code or fn.code[-1] != OPN["Return"]),
         "locals_boundary_programs": sum(len(r["sizes"]) for r in brows),
         "samples": [sample_ok.src[:500] if sample_ok else "", next((r_["family"] + ":" + str(r_["size"]) for r_ in rows if "size" in r_), "")],
         "traces_validated_against_impl": len(items),
@@ -1666,12 +2179,27 @@ def run(ctx):
     })
 
 
+def new_violations(ctx):
+    return [v for v in ctx.violations if not v.get("known_class")]
+
+
 def search(ctx):
-    """obligations broken (e.g. the opcode table or a limit constant changed): look for a failing input with the
-    thorough generator"""
+    """obligations broken (a regenerated table, the opcode table or a limit constant changed): look for a failing
+    input - first the DIRECTED families at their thorough size with the quick-sized random generator (a few
+    minutes), and only if that finds nothing the whole thorough tier"""
+    if _SEARCH["running"] or _SEARCH["done"] or ctx.replay_only:
+        return
     old = ctx.tier
     ctx.tier = "thorough"
+    _SEARCH["running"] = True
     try:
-        run(ctx)
+        _SEARCH["directed_pass"] = True
+        log("[C04] search: directed families at thorough size")
+        run_once(ctx)
+        _SEARCH["directed_pass"] = False
+        if not new_violations(ctx):
+            log("[C04] search: whole thorough tier")
+            run_once(ctx)
     finally:
         ctx.tier = old
+        _SEARCH.update({"running": False, "done": True, "directed_pass": False})
